@@ -40,7 +40,7 @@ fn gcd(a: i64, b: i64) -> i64 {
 /// A number as a tagged value: small rationals exactly, everything else outside the modelled domain.
 pub fn num_to_tagged(n: &Number) -> Value {
     if let Some(i) = n.as_i64() {
-        if i.abs() <= i32::MAX as i64 {
+        if i.unsigned_abs() <= i32::MAX as u64 {
             return json!({"t":"num","p":i,"q":1});
         }
         return json!({"t":"num","big":i.to_string()});
@@ -55,7 +55,7 @@ pub fn num_to_tagged(n: &Number) -> Value {
     for q in 1..=1000i64 {
         let x = f * (q as f64);
         let r = x.round();
-        if (x - r).abs() <= 1e-9 * (1.0 + x.abs()) && r.abs() < 2_000_000_000.0 {
+        if (x - r).abs() <= 1e-9 + 1e-12 * x.abs() && r.abs() < 2_000_000_000.0 {
             let p = r as i64;
             let g = gcd(p, q).max(1);
             return json!({"t":"num","p":p / g,"q":q / g});
